@@ -11,7 +11,7 @@ use crate::{
     context::CommonContext,
     instruction::operation::Operation,
     parser::{
-        parse_iter, sets_origin_for_later, CodePoint, Item, Macro, ParseContext, ParseResult, Paths,
+        parse_iter, CodePoint, Item, Macro, ParseContext, ParseResult, Paths,
         Segment,
     },
 };
@@ -82,13 +82,13 @@ impl Pass0Context {
     }
 
     pub fn as_pass0_result(&self) -> BuildResultPass0 {
-        let all = self.segments.borrow();
-        let segments = all
+        let segments = self
+            .segments
+            .borrow()
             .iter()
-            .enumerate()
             // an empty segment with an .org sets the location counter for what follows in its memory
-            .filter(|(i, x)| !x.borrow().is_empty() || sets_origin_for_later(&x.borrow(), &all, *i))
-            .map(|(_, x)| x.borrow().clone())
+            .filter(|x| !x.borrow().is_empty() || x.borrow().address != 0)
+            .map(|x| x.borrow().clone())
             .collect();
         let messages = self.messages.borrow().clone();
 
